@@ -34,6 +34,7 @@ structure Session where
   worlds : List (Option (List (World F))) := []    -- bevy: per system order (index = 2*chainFirst + qFirst) the entities of the App
   clockPaused : Bool := false                      -- bevy's `Time`: paused / relative speed (not mina code; driver-level glue)
   clockSpeed : Float := 1.0
+  subs : Std.HashMap Nat (SubTl F) := {}           -- stand-alone sub-timelines (ops sub / subov / subat)
 
 def fb (s : String) : F := Float32.ofBits (UInt32.ofNat s.toNat!)
 def bits (x : F) : String := toString x.toBits.toNat
@@ -338,6 +339,30 @@ def runLine (st : Session) (line : String) : Session × String := Id.run do
     let r := Q4.lerpScalar Float.sqrt (fun d : Float => d >= 0.0) 1.0 ⟨g 1, g 2, g 3, g 4⟩ ⟨g 5, g 6, g 7, g 8⟩ (fb w[9]!).toFloat
     let b64 := fun (x : Float) => toString x.toBits.toNat
     return (st, " ".intercalate [b64 r.x, b64 r.y, b64 r.z, b64 r.w])
+  | "sub" =>
+    let kind := if w[2]! == "f" then "f32" else "i16"
+    let n := w[5]!.toNat!
+    let kfs : List (PKeyframe F) := (List.range n).map fun k =>
+      ⟨fb w[6 + 3 * k]!, (if w[8 + 3 * k]! == "-" then none else some (parseVal kind w[8 + 3 * k]!)),
+       (if w[7 + 3 * k]! == "-" then none else some (parseEasing w[7 + 3 * k]!))⟩
+    let s := SubTl.fromKeyframes kfs (parseVal kind w[3]!) (parseEasing w[4]!)
+    return ({ st with subs := st.subs.insert w[1]!.toNat! s }, "ok")
+  | "subov" =>
+    match st.subs.get? w[1]!.toNat! with
+    | none => return (st, "bad-slot")
+    | some s =>
+      -- the value's kind is that of the sub-timeline's frames (an empty sub-timeline ignores the call)
+      let v : Val F := match s.frames.head? with
+        | some ⟨_, .int k _, _⟩ => .int k w[2]!.toInt!
+        | _ => .num (fb w[2]!)
+      return ({ st with subs := st.subs.insert w[1]!.toNat! (s.overrideStart v) }, "ok")
+  | "subat" =>
+    match st.subs.get? w[1]!.toNat! with
+    | none => return (st, "bad-slot")
+    | some s =>
+      match s.valueAt (fb w[2]!) w[3]!.toNat! (w[4]! == "1") with
+      | none => return (st, "-")
+      | some r => return (st, showExc (r.map showVal))
   | "ease" =>
     let e := parseEasing w[1]!
     let outs := (w.toList.drop 2).map fun t => bits (e.calc (fb t))
